@@ -1,4 +1,4 @@
-import GqlProofs.LexerRelex
+import GqlProofs.LexerGrammar
 /-! # C03, lexer half — property theorems
 
 `M` = `GqlModel.Lexer` (lexer.go, function for function, two cursors), `S` = `GqlModel.Lexer.Spec` (the lexical
@@ -130,14 +130,22 @@ theorem string_value_spec (f : Nat) (rest : Bytes) (start : Nat) (hf : rest.leng
     obtain ⟨q, hq, -⟩ := h
     exact ⟨q, by simp [readString, hq]⟩
 
-theorem quoteByte_head (b : UInt8) : ∃ x xs, quoteByte b = x :: xs ∧ x ≠ 34 := by
-  unfold quoteByte
-  by_cases h1 : b = 34
-  · exact ⟨92, [34], by simp [h1], by decide⟩
-  repeat' split
-  all_goals first
-    | exact ⟨92, _, rfl, by decide⟩
-    | exact ⟨b, [], rfl, h1⟩
+/-- `Spec.stringBody` is exactly the `StringValue` production with its semantic values (`StrChars`, the derivation
+relation in GqlModel/LexerGrammar.lean): it accepts `body"…` with value `v` iff `body` derives `StringCharacter*`
+with value `v`. Together with `string_value_spec`: a STRING token's value is the grammar's semantic value. -/
+theorem stringBody_iff_grammar (bs : Bytes) (len : Nat) (v : Bytes) :
+    stringBody bs = .ok (len, v) ↔ ∃ body rest, bs = body ++ 34 :: rest ∧ len = body.length + 1 ∧ StrChars body v := by
+  constructor
+  · exact stringBody_sound _ bs (Nat.le_refl _) len v
+  · rintro ⟨body, rest, rfl, rfl, hd⟩
+    exact stringBody_complete hd rest
+
+/-- …hence, for the real reader: `readString` on `"` body `"` rest returns value `v` whenever `body` derives
+`StringCharacter*` with value `v`. -/
+theorem string_value_grammar (f : Nat) (body rest v : Bytes) (start : Nat) (hf : (body ++ 34 :: rest).length < f)
+    (hd : StrChars body v) :
+    readString f (34 :: (body ++ 34 :: rest)) start = .ok ⟨.string, start, start + 1 + (body.length + 1), v⟩ :=
+  (string_value_spec f (body ++ 34 :: rest) start hf).1 _ _ (stringBody_complete hd rest)
 
 /-- **unquote ∘ quote = id**: for every byte string `s` and every continuation `rest`, reading the GraphQL-quoted
 rendering of `s` (`quoteString`, printer.go:128) yields exactly `s` and stops exactly at `rest`. -/
@@ -227,6 +235,20 @@ theorem number_maximal_munch (f : Nat) (rest : Bytes) (p : Nat) (hf : rest.lengt
         have : (makeToken k p (p + len) (rest.take len)).stop - p = len := e
         rw [this] at hd; exact hd
       exact number_follow hn d hd'
+
+/-- The lexeme of an INT token is an IntValue, the lexeme of a FLOAT token a FloatValue of the grammar
+(`IsIntValue` / `IsFloatValue`: the productions IntegerPart, FractionalPart, ExponentPart as predicates on complete
+lexemes, GqlModel/LexerGrammar.lean). -/
+theorem number_token_grammar (f : Nat) (rest : Bytes) (p : Nat) (hf : rest.length < f) (t : LTok)
+    (h : readNumber f rest p (runeAt rest).1 (runeAt rest).2 = .ok t) :
+    (t.kind = .int ∧ IsIntValue t.value) ∨ (t.kind = .float ∧ IsFloatValue t.value) := by
+  rw [readNumber_spec f rest p hf] at h
+  match hn : number rest with
+  | .error (o, e) => rw [hn] at h; simp at h
+  | .ok (k, len) =>
+    rw [hn] at h; simp only [Except.ok.injEq] at h
+    subst h
+    exact number_sound hn
 
 /-- what the library does with the edge forms (checked against the real lexer by the harness as well) -/
 example : (lexAll [49, 46]).err = some ⟨2, .expectedDigit⟩ ∧ (lexAll [49, 101]).err = some ⟨2, .expectedDigit⟩ ∧
